@@ -287,9 +287,20 @@ def _worker(prop_id, tier, seed, k, K, repo, conn, replay_case=None):
                 else:
                     stats.witness_ok.append(e["key"])
 
-        # 1. enumerated cases, sharded
+        # 1. regression replays (shrunk failures of earlier rounds), then enumerated cases, sharded
+        def _regress():
+            d = os.path.join(VERIF, "replays", prop_id)
+            if os.path.isdir(d):
+                for n in sorted(os.listdir(d)):
+                    if n.startswith("regress-") and n.endswith(".json"):
+                        try:
+                            yield json.load(open(os.path.join(d, n)))["case"]
+                        except Exception:
+                            continue
+
         try:
-            for i, case in enumerate(prop.explicit()):
+            import itertools
+            for i, case in enumerate(itertools.chain(_regress(), prop.explicit())):
                 if i % K != k:
                     continue
                 handle(case, False)
